@@ -456,6 +456,12 @@ export class SchemaPrintingContext {
     delete this.inProgressDefinitions[name];
   }
 
+  // a definition whose body could not be printed (the printer threw) is no longer in progress:
+  // a later call must print it again instead of emitting a $ref to a definition that will never be stored
+  abandonDefinition(name: string): void {
+    delete this.inProgressDefinitions[name];
+  }
+
   exportDefinitions():
     | Record<string, JSONSchema7Definition>
     | Record<string, Record<string, JSONSchema7Definition>> {
@@ -1835,7 +1841,13 @@ export class AnyOfDiscriminatedRuntype extends BaseRuntype {
       return;
     }
     printingContext.markDefinitionInProgress(name);
-    const body = target.schema(ctx);
+    let body: JSONSchema7;
+    try {
+      body = target.schema(ctx);
+    } catch (e) {
+      printingContext.abandonDefinition(name);
+      throw e;
+    }
     printingContext.storeDefinition(name, body);
   }
 
@@ -2360,7 +2372,13 @@ export abstract class BaseRefRuntype extends BaseRuntype {
       if (!printingContext.hasDefinition(name) && !printingContext.isDefinitionInProgress(name)) {
         printingContext.markDefinitionInProgress(name);
         const schemaTarget = printingContext.getNamedTypeSchemaOverride(name) ?? to;
-        const body = schemaTarget.schema(ctx);
+        let body: JSONSchema7;
+        try {
+          body = schemaTarget.schema(ctx);
+        } catch (e) {
+          printingContext.abandonDefinition(name);
+          throw e;
+        }
         printingContext.storeDefinition(name, body);
       }
       return annotateSchema(this.metadata, { $ref: printingContext.getRef(name) });
